@@ -2,7 +2,7 @@ SPECIFICATION Spec
 CONSTANTS
   Budget = 3
   SpaceSize = 3
-  MaxMeas = 2
+  MaxMeas = 1
   Rewards <- PalNZP
   Accs = {}
   Steps = {0}
